@@ -186,3 +186,52 @@ def tasks(tier, seed):
         for allc in (False, True):
             out[f"detector/poynting/{d}/all={allc}"] = Task(_detector_task("poynting", {"direction": d, "all": allc}))
     return out
+
+
+# ---------------------------------------------------------------------------------------------
+# replay on the real code (real JAX, concrete arrays)
+
+
+def replay(key, obligation, witness):
+    """step tasks: REAL update_E + update_H under real JAX on a concrete scene, once with float64 field storage
+    and once with the same fields stored as complex128 (imaginary part 0); sources with concrete (for
+    `complex_profile` tasks: complex) incident profiles; compares Re(complex run) with the real run and requires
+    Im(complex run) == 0.  Detector tasks have no replay."""
+    import jax
+    import jax.numpy as jnp
+    import numpy as np
+
+    import fdtdx.fdtd.update as U
+    from fdtdx.fdtd.container import ObjectContainer
+
+    if not key.startswith("step/"):
+        return False, "no replay for detector-update obligations"
+    spec = K.parse_spec((witness or {}).get("notes"))
+    if not spec:
+        return False, "witness carries no configuration"
+    details = []
+    for attempt in range(2):
+        w = {"scalars": {"Nx": 3 + attempt, "Ny": 2 + attempt, "Nz": 4}}
+        sp = dict(spec, complex=False)
+        shape, cfg, objs, real, rng = K.concrete_scene(sp, w, seed=attempt)
+        T = 6
+        srcs = K.concrete_sources(dict(spec, complex=bool(spec.get("complex_profile"))), shape, cfg, T, rng, real)
+        oc = ObjectContainer(object_list=[*objs, *srcs], volume_idx=0)
+        cplx = real.aset("fields->E", jnp.asarray(np.asarray(real.fields.E), dtype=jnp.complex128)).aset("fields->H", jnp.asarray(np.asarray(real.fields.H), dtype=jnp.complex128))
+        t = jnp.asarray(2, dtype=jnp.int32)
+        import warnings
+
+        with jax.disable_jit(), warnings.catch_warnings():
+            warnings.simplefilter("ignore")
+            r2 = U.update_H(t, U.update_E(t, real, oc, cfg, True), oc, cfg, True)
+            c2 = U.update_H(t, U.update_E(t, cplx, oc, cfg, True), oc, cfg, True)
+        worst = 0.0
+        for nm, X, Y in (("E", c2.fields.E, r2.fields.E), ("H", c2.fields.H, r2.fields.H)):
+            X, Y = np.asarray(X), np.asarray(Y)
+            scale = max(1.0, float(np.max(np.abs(Y))))
+            d_re, d_im = float(np.max(np.abs(X.real - Y.real))) / scale, float(np.max(np.abs(X.imag))) / scale
+            details.append(f"attempt {attempt}: shape {tuple(shape)} {nm}: |Re(complex run) - real run| = {d_re:.3e}, |Im(complex run)| = {d_im:.3e} (relative)")
+            worst = max(worst, d_re, d_im)
+        if worst > 1e-9:
+            return True, "\n".join(details)
+    return False, "\n".join(details)
